@@ -715,3 +715,70 @@ def seeded_generator_scope(ctx, fi, rule):
             visit(ch, inside)
     visit(raw.node, [])
     return n
+
+
+def reachability_tables(ctx, fi, rule):
+    """RegionGraph.build_graph: `self.descendants[r]` are the regions reachable from r along parent -> child edges, `self.ancestors[r]` those
+    from which r is reachable.  With G the parent -> child DAG and H = G.reverse() each table may be read off a transitive closure
+    (`closure(G).neighbors(r)`), or asked of networkx directly (`nx.descendants(G, r)`, `nx.ancestors(G, r)`, or either on H with the roles swapped).
+    `nx.ancestors(H, r)` are the DESCENDANTS of r: stored as the ancestors they make every two parents of a region 'share an ancestor' - the region
+    itself - and the pruning of the minimal region graph keeps a single parent edge per region."""
+    raw = getattr(fi, 'original', fi)
+    assigns = {}
+    for a in ast.walk(raw.node):
+        if isinstance(a, ast.Assign) and len(a.targets) == 1 and isinstance(a.targets[0], ast.Name):
+            assigns.setdefault(a.targets[0].id, []).append(a.value)
+        if isinstance(a, ast.Assign) and len(a.targets) == 1 and isinstance(a.targets[0], ast.Tuple) and isinstance(a.value, ast.Tuple):
+            for t_, v_ in zip(a.targets[0].elts, a.value.elts):
+                if isinstance(t_, ast.Name):
+                    assigns.setdefault(t_.id, []).append(v_)
+    fwd = {n for n, vs in assigns.items() if any(isinstance(v, ast.Call) and U(v.func) in ('nx.DiGraph', 'networkx.DiGraph') and not v.args for v in vs)}
+    if len(fwd) != 1:
+        raise AnalysisError('build_graph: the parent -> child graph was not found')
+    G = fwd.pop()
+    direction = {G: 1}
+    changed = True
+    while changed:
+        changed = False
+        for n, vs in assigns.items():
+            if n in direction:
+                continue
+            for v in vs:
+                t = U(v).replace(' ', '')
+                for g, d in list(direction.items()):
+                    if t == '%s.reverse()' % g or t == 'nx.reverse(%s)' % g or t == '%s.reverse(copy=True)' % g:
+                        direction[n] = -d
+                    elif t in ('nx.transitive_closure(%s)' % g, 'nx.transitive_closure_dag(%s)' % g):
+                        direction[n] = d
+                if n in direction:
+                    changed = True
+                    break
+    n_ob = 0
+    for a in ast.walk(raw.node):
+        if not (isinstance(a, ast.Assign) and len(a.targets) == 1 and isinstance(a.targets[0], ast.Attribute) and U(a.targets[0].value) == 'self'
+                and a.targets[0].attr in ('descendants', 'ancestors') and isinstance(a.value, ast.DictComp) and len(a.value.generators) == 1):
+            continue
+        r = U(a.value.generators[0].target)
+        v = a.value.value
+        while isinstance(v, ast.Call) and U(v.func) in ('list', 'set', 'sorted', 'tuple') and len(v.args) == 1:
+            v = v.args[0]
+        t = U(v).replace(' ', '')
+        import re
+        got = None
+        m = re.fullmatch(r'(\w+)\.(neighbors|successors)\(%s\)' % re.escape(r), t)
+        if m and m.group(1) in direction:
+            got = direction[m.group(1)]
+        m = re.fullmatch(r'(\w+)\.predecessors\(%s\)' % re.escape(r), t)
+        if m and m.group(1) in direction:
+            got = -direction[m.group(1)]
+        m = re.fullmatch(r'(?:nx|networkx)\.(descendants|ancestors)\((\w+),%s\)' % re.escape(r), t)
+        if m and m.group(2) in direction:
+            got = direction[m.group(2)] * (1 if m.group(1) == 'descendants' else -1)
+        if got is None:
+            raise AnalysisError('build_graph: `self.%s[%s] = %s` is in no recognised form' % (a.targets[0].attr, r, U(a.value.value)[:60]))
+        want = 1 if a.targets[0].attr == 'descendants' else -1
+        n_ob += 1
+        ctx.ob(rule, fi, a, got == want, 'self.%s[%s] must hold the regions %s %s along the parent -> child edges; `%s` yields the regions %s' % (
+            a.targets[0].attr, r, 'reachable from' if want == 1 else 'that reach', r, U(a.value.value)[:60],
+            'reachable from it' if got == 1 else 'that reach it'), construct='reachability table self.%s' % a.targets[0].attr)
+    return n_ob
